@@ -23,6 +23,8 @@ import (
 type c11Case struct {
 	Text   string `json:"text"`   // program source
 	Shape  string `json:"shape"`  // rule shape
+	// Preload: ground atoms (source text) put into the store before evaluation: base facts of extensional predicates
+	Preload []string `json:"preload,omitempty"`
 	Syntax string `json:"syntax"` // fn | dot (how bounds are written)
 }
 
@@ -152,7 +154,7 @@ func (c11) Gen(r *rand.Rand, tier string, i int) any {
 	if !c12WellFormed(pt) || strings.Contains(fmt.Sprint(pt), "fn:Option") {
 		pt = t
 	}
-	shapes := []string{"copy", "pair", "list", "struct", "map", "member", "match-pair", "match-field", "copy-second-row", "cons", "join", "join-rev", "join-two-rows", "neg-prefix", "recursive-undeclared", "head-mode", "facts-and-rules", "match-prefix", "type-named-names"}
+	shapes := []string{"copy", "pair", "list", "struct", "map", "member", "match-pair", "match-field", "copy-second-row", "cons", "join", "join-rev", "join-two-rows", "neg-prefix", "recursive-undeclared", "head-mode", "facts-and-rules", "match-prefix", "type-named-names", "const-in-multi-row"}
 	shape := shapes[r.Intn(len(shapes))]
 	if shape == "head-mode" {
 		// the declared head predicate carries a mode: whatever the mode, a fact derived by a rule has to lie inside
@@ -220,6 +222,33 @@ func (c11) Gen(r *rand.Rand, tier string, i int) any {
 		} else {
 			fmt.Fprintf(&nb, "Decl w(X, Y) bound [%s, /name].\nDecl p(X) bound [%s].\np(X) :- w(_, X), :match_prefix(X, %s).\nw(%s/z, %s/z).\n", a, b, b, a, b)
 		}
+		return c11Case{Text: nb.String(), Shape: shape, Syntax: syntax}
+	}
+	if shape == "const-in-multi-row" {
+		// a premise with a constant argument over a predicate declared with two bound rows: the constant must not make
+		// the analysis drop a row that matches at run time (an enum column of singletons against a name constant typed
+		// /name; a joined variable narrower than the row's column)
+		type tm struct{ t, m string }
+		enum := []tm{{"fn:Union(fn:Singleton(/weight), fn:Singleton(/pages))", "/weight"}, {"fn:Singleton(/weight)", "/weight"}, {"fn:Union(fn:Singleton(/pages), fn:Singleton(/weight))", "/pages"}}
+		wide := []tm{{"/name", "/weight"}, {"/name", "/kind/a"}, {"/kind", "/kind/a"}}
+		its := []tm{{"/item", "/item/book/b1"}, {"/item/book", "/item/book/b1"}}
+		vts := []tm{{"/number", "420"}, {"/string", "\"x\""}}
+		var nb strings.Builder
+		fmt.Fprintf(&nb, "Decl q(X) descr [extensional()] bound [%s].\n", []string{"/item/book", "/item"}[r.Intn(2)])
+		k1, k2 := enum[r.Intn(len(enum))], wide[r.Intn(len(wide))]
+		i1, i2 := its[r.Intn(len(its))], its[r.Intn(len(its))]
+		vi := r.Intn(2)
+		v1, v2 := vts[vi], vts[1-vi]
+		rows := []string{fmt.Sprintf("bound [%s, %s, %s]", k1.t, i1.t, v1.t), fmt.Sprintf("bound [%s, %s, %s]", k2.t, i2.t, v2.t)}
+		if r.Intn(2) == 0 {
+			rows[0], rows[1] = rows[1], rows[0]
+		}
+		fmt.Fprintf(&nb, "Decl w(K, I, V) descr [extensional()] %s %s.\n", rows[0], rows[1])
+		pre := []string{"q(/item/book/b1)", fmt.Sprintf("w(%s, %s, %s)", k1.m, i1.m, v1.m), fmt.Sprintf("w(%s, %s, %s)", k2.m, i2.m, v2.m)}
+		lt := []string{"/number", "/string", "fn:Union(/number, /string)"}[r.Intn(3)]
+		kc := []string{"/weight", "/pages", "/kind/a"}[r.Intn(3)]
+		fmt.Fprintf(&nb, "Decl p(V) bound [%s].\np(V) :- q(I), w(%s, I, V).\n", lt, kc)
+		return c11Case{Text: nb.String(), Shape: shape, Syntax: syntax, Preload: pre}
 		return c11Case{Text: nb.String(), Shape: shape, Syntax: syntax}
 	}
 	if shape == "facts-and-rules" {
@@ -514,6 +543,13 @@ func (c11) Run(cs any) core.Result {
 	}
 	res.Ob("accepted", 1)
 	store := factstore.NewMultiIndexedArrayInMemoryStore()
+	for _, t := range c.Preload {
+		if tm, err := parse.Term(t); err == nil {
+			if a, ok := tm.(ast.Atom); ok {
+				store.Add(a)
+			}
+		}
+	}
 	if err := engine.EvalProgram(pi, store); err != nil {
 		res.Ob("evaluation_error", 1)
 		return res
